@@ -114,7 +114,13 @@ func (req *request) Marshal(buf []byte) ([]byte, error) {
 }
 
 //Unmarshal unmarshals the Request from buf and returns the number of bytes read (> 0).
-func (req *request) Unmarshal(data []byte) (uint64, error) {
+func (req *request) Unmarshal(data []byte) (size uint64, err error) {
+	// Truncated or inconsistent input must be an error, not a crash.
+	defer func() {
+		if r := recover(); r != nil {
+			size, err = 0, errMalformedHeader
+		}
+	}()
 	var offset uint64
 	var n uint64
 	n = code.DecodeVarint(data[offset:], &req.Seq)
@@ -229,7 +235,13 @@ func (res *response) Marshal(buf []byte) ([]byte, error) {
 }
 
 //Unmarshal unmarshals the Response from buf and returns the number of bytes read (> 0).
-func (res *response) Unmarshal(data []byte) (uint64, error) {
+func (res *response) Unmarshal(data []byte) (size uint64, err error) {
+	// Truncated or inconsistent input must be an error, not a crash.
+	defer func() {
+		if r := recover(); r != nil {
+			size, err = 0, errMalformedHeader
+		}
+	}()
 	var offset uint64
 	var n uint64
 	n = code.DecodeVarint(data[offset:], &res.Seq)
